@@ -17,6 +17,14 @@ class Underivable(Exception):
     pass
 
 
+class LoopContinue(Exception):
+    pass
+
+
+class LoopBreak(Exception):
+    pass
+
+
 class ReturnNow(Exception):
     def __init__(self, err=False):
         self.err = err
@@ -616,7 +624,12 @@ class Interp:
         sym = self.iter_sym(canon(itv[1]), n[5] if len(n) > 5 else None)
         snap = {sid: (len(st), st[-1], dict(st[-1].count)) for sid, st in self.stacks.items()}
         self.bind(n[2], ("path", "elem(%s)" % sym))
-        self.ev(n[4])
+        try:
+            self.ev(n[4])
+        except LoopContinue:
+            pass  # the rest of this iteration is skipped in this abstract state
+        except LoopBreak:
+            raise Underivable("`break` inside a loop that writes items at line %d" % n[1])
         for sid, (depth, top, before) in snap.items():
             st = self.stacks[sid]
             if len(st) != depth or st[-1] is not top:
@@ -647,10 +660,16 @@ class Interp:
                         return canon(p + q[4:])
         return p
 
+    def ev_continue(self, n):
+        raise LoopContinue()
+
+    def ev_break(self, n):
+        raise LoopBreak()
+
     def ev_loop(self, n):
         if self.uses_ser(n[2]):
             raise Underivable("while/loop writing items at line %d" % n[1])
-        return ("unit",)
+        return ("unit",)  # a loop that does not touch the serializer: its break / continue are never evaluated
 
     def uses_ser(self, n):
         for x in H.walk(n):
@@ -759,6 +778,10 @@ class Interp:
                 return ("path", recv[1] + ("" if name in ("clone", "as_ref", "deref", "borrow", "to_owned", "as_slice") else "." + name + "()"))
             if name == "len" and not n[5]:
                 return ("int", lin(0, self.len_sym(p if recv[0] == "path" else "some(%s)" % p, callee), 1))
+            if name == "filter" and len(n[5]) == 1 and args[0][0] == "closure" and recv[0] == "path" and recv[1].endswith(("()",)):
+                # iterator.filter(|x| cond): keeps the elements for which cond holds; with per-element atoms taken uniformly
+                # (all elements satisfy the atom or none does) the filtered count is N or 0
+                return ("filtered", recv[1], args[0])
             if name in ("is_some", "is_none") and not n[5]:
                 if recv[0] == "somepath":
                     return ("bool", name == "is_some")
@@ -792,6 +815,26 @@ class Interp:
             if name in ("flatten",):
                 return recv
             return self.bool_or_opaque(name, p, n)
+        if recv[0] == "filtered" and name == "count" and not n[5]:
+            it_path = recv[1]
+            base = canon(it_path)
+            for suf in (".values()", ".keys()"):
+                if base.endswith(suf):
+                    base = canon(base[: -len(suf)])
+            elem = "elem(%s)" % base
+            if canon(it_path).endswith(".values()"):
+                elem = "elem(%s).1" % base
+            elif canon(it_path).endswith(".keys()"):
+                elem = "elem(%s).0" % base
+            cl = recv[2]
+            params = [b for pp in cl[1][3] for b in H.pat_bindings(pp)]
+            if len(params) != 1:
+                raise Underivable("filter closure with %d parameters at line %d" % (len(params), n[1]))
+            saved = dict(self.env)
+            self.env[params[0]] = ("path", elem)
+            keep = self.truth(self.ev(cl[1][4]))
+            self.env = saved
+            return ("int", lin(0, base, 1) if keep else lin(0))
         if recv[0] == "opt" and recv[1] is not None and name == "map" and len(n[5]) == 1 and args[0][0] == "closure":
             cl = args[0]
             params = [b for pp in cl[1][3] for b in H.pat_bindings(pp)]
